@@ -215,3 +215,7 @@ func Jitter() {
 	jitterState ^= jitterState << 17
 	time.Sleep(time.Duration(jitterState%2000) * time.Microsecond)
 }
+
+// RegisterWatcher tells the symbolic fsnotify stub which channel its watcher hands out (no effect natively,
+// where the real watcher observes real files).
+func RegisterWatcher(events interface{}, done interface{}) {}
